@@ -203,7 +203,14 @@ fn run_chain(chain: &Chain, sched_for: &mut dyn FnMut(usize) -> Sched, ref_heads
                 return None;
             }
         };
-        let sched = sched_for(i);
+        let mut sched = sched_for(i);
+        if sched.partial_on && (300..400).contains(&ex.head.status) {
+            sched.partial_on = false;
+        }
+        if sched.partial_on {
+            // the answer is not a redirect: the opt-in for truncated redirect heads must make no difference
+            rec.cov("schedule/opt-in-on-for-a-non-redirect");
+        }
         rec.ev(|| format!("exchange {}: {} | body {}B | handshake {:?} | response {} {:?} {}B at offset {} | schedule: {}", i, ex.cfg.describe(), ex.req_body.len(), ex.handshake, ex.head.status, truth.framing, truth.total_len, off, sched.describe()));
         let mut d = Driver::new(flow, &ex.cfg, &ex.req_body, &chain.stream[offset..], truth.scen, sched);
         let end = d.run(rec);
@@ -274,7 +281,8 @@ fn random_case(rng: &mut Rng, schedules: usize, rec: &mut Rec) {
         let mut r2 = rng.fork();
         let small = chain.small;
         let mut mk = |_i: usize| {
-            let s = Sched::random(&mut r2, small);
+            let mut s = Sched::random(&mut r2, small);
+            s.partial_on = r2.chance(1, 6);
             s
         };
         // coverage of schedule classes
@@ -388,7 +396,7 @@ impl Property for P {
     fn floors(&self, _tier: Tier) -> Vec<(String, u64)> {
         [
             "chain-of-1", "chain-of-2", "chain-of-3", "framing/chunked/*", "framing/length/*", "framing/close/Cleanup", "framing/HEAD/*", "framing/redirect-without-framing/Redirect", "request/sized-body/*", "request/chunked-body/*",
-            "request/no-body/HTTP/1.0", "single-cut", "double-cut", "unsolicited-100", "schedule/direct-write-reports", "schedule/head-buffers-of-longest-line", "schedule/small-payload-profiles", "schedule/large-payload-profiles", "hook:dechunk:Trailer->Ending", "hook:tick:write_chunk",
+            "request/no-body/HTTP/1.0", "single-cut", "double-cut", "unsolicited-100", "schedule/direct-write-reports", "schedule/head-buffers-of-longest-line", "schedule/opt-in-on-for-a-non-redirect", "schedule/small-payload-profiles", "schedule/large-payload-profiles", "hook:dechunk:Trailer->Ending", "hook:tick:write_chunk",
         ]
         .iter()
         .map(|k| (k.to_string(), 20))
